@@ -141,7 +141,7 @@ def expand_oneof(shape):
         for f, s in shape.entries.items():
             opt = isinstance(s, tuple)
             alts = expand_oneof(s[0] if opt else s)
-            combos = [dict(c, **{f: ((x, "optional") if opt else x)}) for c in combos for x in alts]
+            combos = [{**c, f: ((x, "optional") if opt else x)} for c in combos for x in alts]
         return [Shape("dict", entries=c, open=shape.open) for c in combos]
     return [shape]
 
